@@ -77,6 +77,7 @@ type Family struct {
 	ExtraCfg          func(tier string) string // extra CONSTANTS lines for the MC cfg
 	Assume            []string
 	Unbounded         []ApaCheck            // Apalache (SMT) checks of the same case analysis over unbounded integers
+	LayoutBuilds      bool                  // C01: the multi-output layouts of the C20 family must emit packages that build together
 	MixedPacks        func(tier string) int // C01: number of programs that combine units of DIFFERENT families as sibling properties
 }
 
